@@ -84,17 +84,18 @@ def const_sx(v: Any) -> str:
         return "N"
     if v is Ellipsis:
         return "E"
-    if isinstance(v, bool):
+    # exact types only: an instance of a subclass (IntEnum member, str subclass, numpy scalar) is an opaque object
+    if type(v) is bool:
         return "(B %d)" % (1 if v else 0)
-    if isinstance(v, int):
+    if type(v) is int:
         return "(I %d)" % v
-    if isinstance(v, str):
+    if type(v) is str:
         return "(S %s)" % hx(v)
-    if isinstance(v, bytes):
+    if type(v) is bytes:
         return "(Y s%s)" % v.hex()
-    if isinstance(v, float):
+    if type(v) is float:
         return "(F %s)" % hx(repr(v))
-    if isinstance(v, complex):
+    if type(v) is complex:
         return "(X %s)" % hx(repr(v))
     return "(O %s %s)" % (hx(obj_kind(v)), hx(REG.label(v)))
 
